@@ -884,6 +884,16 @@ def _census_fn(ctx, fn, via, depth, emit):
         out.append((bool(tags), 'own|%s|%s' % (label, tags[0] if tags else 'unexpected:' + show(g.pred)[:60]),
                     ('rejection%s implements: ' % (' (in helper %s)' % label if via else '') + [c for t, m, c in EXPECTED_OWN if t == tags[0]][0]) if tags else
                     'a rejection that no clause of the statement calls for (possible spurious rejection): %s' % show(g.pred)[:200], g.where()))
+    if via:
+        # a helper may also hand on the Result of a fallible step as its own (`usize::try_from(v).with_context(..)` as the tail
+        # expression): that step is judged like a propagated one
+        for x in fn.exits():
+            if x['kind'] == 'passthrough' and fn.raw.get('output', '').startswith('std::result::Result<'):
+                e_ = strip(expand(fn, x['expr']))
+                src = _head(e_) if e_[0] == 'call' else show(e_)[:60]
+                ok = any(s in src for s in EXPECTED_PROP)
+                out.append((ok, 'propagated|%s|%s' % (short(via[-1]), src if ok else 'unexpected:' + src[:60]),
+                            'error handed on from %s' % src[:100] if ok else 'a new fallible step can reject a type description: %s' % src[:160], loc(x['span'])))
     return out
 
 
